@@ -20,28 +20,20 @@ Theorem C10_fatal_degrades_no_restart_v2 : forall f rec,
 Proof. exact (fatal_degrades_generic v2_arms v2_fatal_first). Qed.
 Print Assumptions C10_fatal_degrades_no_restart_v2.
 
-(* which of the property's fatal causes carry the fatal tag when they reach the tomb *)
-Theorem C10_fatal_causes_are_tagged_v1_partial : forall k,
-  property_fatal k = true -> k <> FDlqWriteAfterDst -> engine_tag V1 true k = RFatal.
-Proof. exact fatal_causes_tagged_v1. Qed.
-Print Assumptions C10_fatal_causes_are_tagged_v1_partial.
+(* every cause the property lists as fatal carries the fatal tag when it reaches the tomb, in both engines,
+   and therefore degrades without entering recovery (v1 DLQ write failure: since fix feff813; v2 processor error
+   with the DLQ switched off: since fix a8c7aa9 - reverting either is reported by the harness) *)
+Theorem C10_fatal_causes_degrade : forall e k f rec,
+  property_fatal k = true ->
+  decide (arms_of e) (engine_tag e true k) f rec = Final Degraded TFatal
+  /\ enters_recovery (arms_of e) (engine_tag e true k) f = false.
+Proof. exact fatal_causes_degrade. Qed.
+Print Assumptions C10_fatal_causes_degrade.
 
-Theorem C10_fatal_causes_are_tagged_v1_refuted :
-  property_fatal FDlqWriteAfterDst = true /\
-  decide v1_arms (engine_tag V1 true FDlqWriteAfterDst) (mkFlags false false) RecRestarted = Restart.
-Proof. exact dlq_write_failure_restarts_v1. Qed.
-Print Assumptions C10_fatal_causes_are_tagged_v1_refuted.
-
-Theorem C10_fatal_causes_are_tagged_v2_partial : forall k,
-  property_fatal k = true -> k <> FProcNotAbsorbed false -> engine_tag V2 true k = RFatal.
-Proof. exact fatal_causes_tagged_v2. Qed.
-Print Assumptions C10_fatal_causes_are_tagged_v2_partial.
-
-Theorem C10_fatal_causes_are_tagged_v2_refuted :
-  property_fatal (FProcNotAbsorbed false) = true /\
-  decide v2_arms (engine_tag V2 true (FProcNotAbsorbed false)) (mkFlags false false) RecRestarted = Restart.
-Proof. exact proc_error_dlq_off_restarts_v2. Qed.
-Print Assumptions C10_fatal_causes_are_tagged_v2_refuted.
+Theorem C10_transient_causes_stay_recoverable : forall e k,
+  property_fatal k = false -> engine_tag e true k = RTransient.
+Proof. exact transient_causes_not_tagged. Qed.
+Print Assumptions C10_transient_causes_stay_recoverable.
 
 (* ---------------- transient_restarts_within_bounds ---------------- *)
 
@@ -178,8 +170,8 @@ Print Assumptions C10_first_reason_decides_v1_refuted.
 (* ---------------- tie to the observed behaviour ---------------- *)
 (* the trace acceptor is sound: every event log of the real service that the check accepts is the observable
    trace of an interleaving of the model, whose cleanup steps are [decide] over the tomb's first reason *)
-Theorem C10_accepted_log_is_a_model_interleaving : forall c log,
-  Accept.accepts c log = true -> exists s', AcceptProofs.explains c init log s'.
+Theorem C10_accepted_log_is_a_model_interleaving : forall c cap log,
+  Accept.accepts c cap log = Some true -> exists s', AcceptProofs.explains c init log s'.
 Proof. exact AcceptProofs.accepts_sound. Qed.
 Print Assumptions C10_accepted_log_is_a_model_interleaving.
 
